@@ -152,6 +152,72 @@ theorem normal_form_unique (a b : Num F) (ea : Exact a) (eb : Exact b) (na : Nor
     (nb : Normalised b) (h : val a = val b) : a = b :=
   val_injective ea eb na nb h
 
+/-! ### ring laws at object level (value correctness + unique normal forms) -/
+
+/-- two `Good` results with equal values are the same object -/
+theorem good_unique {r s : Num F} {z w : ℂ} (hr : Good r z) (hs : Good s w) (h : z = w) : r = s :=
+  normal_form_unique r s hr.exact hs.exact hr.normal hs.normal (by rw [hr.value, hs.value, h])
+
+/-- **object-level commutativity** of `+` on exact numbers: both orders succeed with the *same* object
+(not just the same value) — the nine kind pairs and their mirror images dispatch to different C++ methods. -/
+theorem add_comm_exact (a b : Num F) (ea : Exact a) (eb : Exact b) (na : Normalised a) (nb : Normalised b)
+    (za zb : ℂ) (ha : val a = some za) (hb : val b = some zb) :
+    ∃ r, Num.add a b = .ok r ∧ Num.add b a = .ok r := by
+  obtain ⟨r, hr, gr⟩ := add_correct a b ea eb na nb za zb ha hb
+  obtain ⟨s, hs, gs⟩ := add_correct b a eb ea nb na zb za hb ha
+  exact ⟨r, hr, by rw [hs, good_unique gs gr (add_comm zb za)]⟩
+
+theorem mul_comm_exact (a b : Num F) (ea : Exact a) (eb : Exact b) (na : Normalised a) (nb : Normalised b)
+    (za zb : ℂ) (ha : val a = some za) (hb : val b = some zb) :
+    ∃ r, Num.mul a b = .ok r ∧ Num.mul b a = .ok r := by
+  obtain ⟨r, hr, gr⟩ := mul_correct a b ea eb na nb za zb ha hb
+  obtain ⟨s, hs, gs⟩ := mul_correct b a eb ea nb na zb za hb ha
+  exact ⟨r, hr, by rw [hs, good_unique gs gr (mul_comm zb za)]⟩
+
+/-- **object-level associativity** of `+`: `(a + b) + c` and `a + (b + c)` succeed with the same object -/
+theorem add_assoc_exact (a b c : Num F) (ea : Exact a) (eb : Exact b) (ec : Exact c)
+    (na : Normalised a) (nb : Normalised b) (nc : Normalised c)
+    (za zb zc : ℂ) (ha : val a = some za) (hb : val b = some zb) (hc : val c = some zc) :
+    ∃ ab bc r, Num.add a b = .ok ab ∧ Num.add b c = .ok bc ∧ Num.add ab c = .ok r ∧ Num.add a bc = .ok r := by
+  obtain ⟨ab, h1, g1⟩ := add_correct a b ea eb na nb za zb ha hb
+  obtain ⟨bc, h2, g2⟩ := add_correct b c eb ec nb nc zb zc hb hc
+  obtain ⟨r, h3, g3⟩ := add_correct ab c g1.exact ec g1.normal nc _ zc g1.value hc
+  obtain ⟨s, h4, g4⟩ := add_correct a bc ea g2.exact na g2.normal za _ ha g2.value
+  exact ⟨ab, bc, r, h1, h2, h3, by rw [h4, good_unique g4 g3 (add_assoc za zb zc).symm]⟩
+
+theorem mul_assoc_exact (a b c : Num F) (ea : Exact a) (eb : Exact b) (ec : Exact c)
+    (na : Normalised a) (nb : Normalised b) (nc : Normalised c)
+    (za zb zc : ℂ) (ha : val a = some za) (hb : val b = some zb) (hc : val c = some zc) :
+    ∃ ab bc r, Num.mul a b = .ok ab ∧ Num.mul b c = .ok bc ∧ Num.mul ab c = .ok r ∧ Num.mul a bc = .ok r := by
+  obtain ⟨ab, h1, g1⟩ := mul_correct a b ea eb na nb za zb ha hb
+  obtain ⟨bc, h2, g2⟩ := mul_correct b c eb ec nb nc zb zc hb hc
+  obtain ⟨r, h3, g3⟩ := mul_correct ab c g1.exact ec g1.normal nc _ zc g1.value hc
+  obtain ⟨s, h4, g4⟩ := mul_correct a bc ea g2.exact na g2.normal za _ ha g2.value
+  exact ⟨ab, bc, r, h1, h2, h3, by rw [h4, good_unique g4 g3 (mul_assoc za zb zc).symm]⟩
+
+/-- **distributivity** at object level: `a * (b + c)` and `a*b + a*c` are the same object -/
+theorem mul_add_exact (a b c : Num F) (ea : Exact a) (eb : Exact b) (ec : Exact c)
+    (na : Normalised a) (nb : Normalised b) (nc : Normalised c)
+    (za zb zc : ℂ) (ha : val a = some za) (hb : val b = some zb) (hc : val c = some zc) :
+    ∃ bc ab ac r, Num.add b c = .ok bc ∧ Num.mul a b = .ok ab ∧ Num.mul a c = .ok ac ∧
+      Num.mul a bc = .ok r ∧ Num.add ab ac = .ok r := by
+  obtain ⟨bc, h1, g1⟩ := add_correct b c eb ec nb nc zb zc hb hc
+  obtain ⟨ab, h2, g2⟩ := mul_correct a b ea eb na nb za zb ha hb
+  obtain ⟨ac, h3, g3⟩ := mul_correct a c ea ec na nc za zc ha hc
+  obtain ⟨r, h4, g4⟩ := mul_correct a bc ea g1.exact na g1.normal za _ ha g1.value
+  obtain ⟨s, h5, g5⟩ := add_correct ab ac g2.exact g3.exact g2.normal g3.normal _ _ g2.value g3.value
+  exact ⟨bc, ab, ac, r, h1, h2, h3, h4, by rw [h5, good_unique g5 g4 (mul_add za zb zc).symm]⟩
+
+/-- `(a - b) + b = a` as objects (subtraction is the inverse of addition, no drift in the normal form) -/
+theorem sub_add_cancel_exact (a b : Num F) (ea : Exact a) (eb : Exact b) (na : Normalised a) (nb : Normalised b)
+    (za zb : ℂ) (ha : val a = some za) (hb : val b = some zb) :
+    ∃ d, Num.sub a b = .ok d ∧ Num.add d b = .ok a := by
+  obtain ⟨d, h1, g1⟩ := sub_correct a b ea eb na nb za zb ha hb
+  obtain ⟨s, h2, g2⟩ := add_correct d b g1.exact eb g1.normal nb _ zb g1.value hb
+  refine ⟨d, h1, ?_⟩
+  rw [h2]; congr 1
+  exact normal_form_unique s a g2.exact ea g2.normal na (by rw [g2.value, ha]; simp)
+
 /-- **C05 (e)** loop invariant of the binary exponentiation `pow_number` (see `Lemmas/C05Pow.lean`). -/
 theorem pow_number_invariant (x : ℂ) (n : Nat) (hn : n < 2 ^ 64) (fuel k : Nat) (r p : Q × Q)
     (hk : k < 64) (hf : 64 - k ≤ fuel) (hr : P2 r) (hp : P2 p)
